@@ -147,6 +147,8 @@ var plans = []plan{
 	{"hs_auto", []int{4, 16}, 4, 8, []int{2, 8, 16, 32}},
 	{"conn_rwc_gm", []int{2, 8, 32}, 20, 60, []int{2, 4, 8, 16, 32}},
 	{"conn_rwc_tls", []int{2, 8, 32}, 20, 60, []int{2, 4, 8, 16, 32}},
+	{"conn_close_stall_gm", []int{2}, 1, 2, []int{2, 8}},
+	{"conn_close_stall_tls", []int{4}, 1, 2, []int{3}},
 	{"conn_alert_gm", []int{2, 8}, 1, 3, []int{2, 3, 8, 16}},
 	{"conn_alert_tls", []int{2, 8}, 1, 3, []int{2, 3, 8, 16}},
 	{"lru_cache", []int{2, 32}, 200, 2000, []int{2, 8, 32}},
